@@ -122,6 +122,7 @@ enum Op {
     IntoIter(usize, usize),
     IntoSlice(u8), // 0 into_bump_slice, 1 into_bump_slice_mut, 2 into_boxed_slice
     Splice(Bound<usize>, Bound<usize>, Vec<u64>, usize),
+    Armed(Box<Op>, u64),  // the inner operation, run while the destructor of one element is set to panic
     Neighbour(usize), // grow a neighbouring collection in the same arena by n elements
 }
 
@@ -172,6 +173,7 @@ impl Op {
             Op::IntoIter(f, b) => format!("into_iter {} {}", f, b),
             Op::IntoSlice(k) => format!("into_slice {}", k),
             Op::Splice(s, e, xs, t) => format!("splice {} {} {} {}", show_bound(s), show_bound(e), show_ids(xs), t),
+            Op::Armed(inner, id) => format!("armed {} {}", id, inner.show()),
             Op::Neighbour(n) => format!("neighbour {}", n),
         }
     }
@@ -355,6 +357,10 @@ fn take_drops() -> Vec<u64> {
 
 /// run one op on the bumpalo vector
 fn run_bump<'b>(w: &mut World<'b>, op: &Op) -> Obs {
+    if let Op::Armed(inner, id) = op {
+        BOOM_DROP.with(|b| *b.borrow_mut() = vec![*id]);
+        return run_bump(w, inner);
+    }
     let bump = w.bump.unwrap();
     let mut v = w.bv.take().unwrap();
     take_drops();
@@ -411,6 +417,10 @@ fn run_bump<'b>(w: &mut World<'b>, op: &Op) -> Obs {
 }
 
 fn run_std(w: &mut World, op: &Op) -> Obs {
+    if let Op::Armed(inner, id) = op {
+        BOOM_DROP.with(|b| *b.borrow_mut() = vec![*id]);
+        return run_std(w, inner);
+    }
     let mut v = w.sv.take().unwrap();
     take_drops();
     let r = catch_unwind(AssertUnwindSafe(|| -> (String, bool) {
@@ -574,6 +584,16 @@ fn run_program(seed: u64, hid: u64, maxops: usize) {
                 let j = rng.usize_below(len);
                 Op::Truncate(0, vec![w.sv.as_ref().unwrap()[j].id])
             }
+            // the iterator-like operations, with the destructor of one current element set to panic:
+            // whichever of them drops that element (the Drain, the Splice, the IntoIter, retain, dedup)
+            // unwinds, and afterwards nothing may have been dropped twice
+            o @ (Op::Drain(..) | Op::Splice(..) | Op::IntoIter(..) | Op::DrainFilter(..) | Op::Retain(..) | Op::DedupBy(..))
+                if len > 0 && rng.chance(1, 5)
+                    // never together with a panicking callback: a second panic while unwinding aborts
+                    && !matches!(&o, Op::DrainFilter(a, _) | Op::Retain(a) | Op::DedupBy(a) if a.iter().any(|x| matches!(x, Ans::Boom))) => {
+                let j = rng.usize_below(len);
+                Op::Armed(Box::new(o), w.sv.as_ref().unwrap()[j].id)
+            }
             o => o,
         };
         let id1 = NEXT_ID.with(|n| n.get());
@@ -623,7 +643,9 @@ fn run_program(seed: u64, hid: u64, maxops: usize) {
         if !reachable_dead.is_empty() {
             line!("X dropped_value_reachable ids={}", show_ids(&reachable_dead));
         }
-        if bump_calls != std_calls {
+        // (with a destructor armed to panic the two implementations may stop calling back at different
+        // points: std drops rejected elements as it goes, bumpalo after the partition)
+        if bump_calls != std_calls && !matches!(op, Op::Armed(..)) {
             line!("X callback_arguments_differ bump={} std={}", show_ids(&bump_calls), show_ids(&std_calls));
         }
         if !check_neighbours(&mut w, &mut nb_expected, &mut s_expected) {
